@@ -34,14 +34,14 @@ def layouts(src):
 def run_one(item, api):
     if "prog" in item:
         src, _ = R.render(item["prog"])
-        log, out = run_source(api, src)
+        log, out = run_source(api, src, wall=item.get("wall", 30.0))
     else:
         src = item["src"]
-        log, out = run_corpus(api, src)
+        log, out = run_corpus(api, src, wall=item.get("wall", 60.0))
     return {"id": item["id"], "log": log, "out": out, "lay": layouts(src)}
 
 
-def run_corpus(api, src):
+def run_corpus(api, src, wall=60.0):
     """corpus scripts define their own helpers; console.log and the script-visible string `log_str` are the observations"""
     ctx = api.new_context(time_limit=200000)
     log = []
@@ -49,7 +49,7 @@ def run_corpus(api, src):
     ctx.eval(PRELUDE)
     box = ctx._raw_box
     del box[:]
-    out = api.run(lambda: ctx.eval(src), wall=60.0, cap=3000000, tick=1.0)
+    out = api.run(lambda: ctx.eval(src), wall=wall, cap=3000000, tick=1.0)
     if out["o"] == "value":
         out.pop("pv", None)
         out["v"] = proj(box[0]) if box else {"t": "host", "d": "no value"}
